@@ -111,4 +111,24 @@ CLAIMS["C08"] = {
     "technique": "operand-role orientation checks + linear/rational normal forms + guard dominance (AST, CFG)",
 }
 
+CLAIMS["C02"] = {
+    "text": "Decides by schema analysis that every (text buffer class, dataclass field) pair - 26 buffer classes, ~190 pairs, enumerated through inheritance - has a text parser (table entry, "
+            "encoding fallback or a per-column override), that exactly the VCF `position` column is shifted by -1 on read (branch constant == schema index; applied to an owned array) and no "
+            "other buffer shifts coordinates, that the SAM / FASTQ / FASTA / GFA fixed layouts agree with their entry types, that the VCF class caches are keyed by everything their value "
+            "depends on, that header lines are separated by the format's comment character with push-back of the first data line, and that the field start/end table, column stride, "
+            "right-aligned digit matrix and sub-delimiter truncation have the normal forms the formats require. Exhaustiveness and table agreement are exactly what enumeration of the "
+            "source decides for all files.",
+    "note": _NOTE + "Not decided: digit alignment values, INFO key lookup, genotype encoding values (value-level).",
+    "technique": "schema enumeration + handler-table exhaustiveness + constant/normal-form agreement + memo-key dependency analysis (AST)",
+}
+CLAIMS["C03"] = {
+    "text": "Decides that every field type written through the column writer has a formatter (table, encoding fallback, text alternative of a Union; the nested-table alternative of VCF INFO "
+            "is a recorded finding), that on the CFG of NpBufferedWriter.write the header write is dominated by `not _header_written` and the not-append test, is followed by the flag on every "
+            "path, does not depend on the header's content, precedes record bytes, and that stream cases recurse into the same writer; that VCF POS is written +1 on both write paths on a "
+            "replaced copy; that separators are stored before record terminators with the right stride, the FASTQ '+' line and marker offsets are placed as the format says, the FASTA wrapping "
+            "formulas satisfy (full lines)*W + last == L with 1 <= last <= W over whole periods; and that modes, gzip and suffixes select the right opener, writer and buffer class.",
+    "note": _NOTE + "Known finding: nested INFO table has no formatter. Not decided: float printing precision, equality of read-back tables.",
+    "technique": "handler-table exhaustiveness + CFG dominance/post-dominance of the header flag + normal forms of layout arithmetic (AST)",
+}
+
 NOT_APPLICABLE = {}
